@@ -286,11 +286,34 @@ func hostReenter(ctx context.Context, mod api.Module, stack []uint64) {
 		args = []uint64{kind, k}
 	}
 	_, err := fn.Call(ctx, args...)
+	style := mode >> 4
+	switch style {
+	case styleExit0, styleExit9:
+		code := uint32(0)
+		if style == styleExit9 {
+			code = 9
+		}
+		w.raised = sys.NewExitError(code)
+		panic(w.raised)
+	}
 	if err != nil {
-		if mode == depth {
+		if mode&15 == depth {
+			w.raised = nil
 			stack[0] = uint64(classCode(classify(err)))
 			return
 		}
+		switch style {
+		case styleUnwrap:
+			err = &wrapErr{err}
+		case styleErrorf:
+			err = fmt.Errorf("ctx: %w", err)
+		case styleJoin:
+			err = errors.Join(err, errOther)
+		case styleString:
+			w.raised = nil
+			panic(stringPanic)
+		}
+		w.raised = err
 		panic(err)
 	}
 	stack[0] = 0
@@ -299,15 +322,16 @@ func hostReenter(ctx context.Context, mod api.Module, stack []uint64) {
 // ---------------------------------------------------------------- world = fresh instances A and B
 
 type world struct {
-	e    *engineRT
-	ctx  context.Context   // carries the world; used for instantiating / closing A and B
-	cur  context.Context   // the context the next step is called with (== ctx unless a context variant is explored)
-	base int               // runtime.NumGoroutine() when the world was created (settle)
-	x    [nXMem]api.Module // module X per memory shape, instantiated on first use
-	xfn  [nXMem]map[int]api.Function
-	q    api.Module
-	A, B api.Module
-	fn   [6]api.Function // the function objects reused across the whole word
+	e      *engineRT
+	ctx    context.Context   // carries the world; used for instantiating / closing A and B
+	cur    context.Context   // the context the next step is called with (== ctx unless a context variant is explored)
+	base   int               // runtime.NumGoroutine() when the world was created (settle)
+	x      [nXMem]api.Module // module X per memory shape, instantiated on first use
+	xfn    [nXMem]map[int]api.Function
+	q      api.Module
+	raised error // the error value the most recent (= outermost so far) host level panicked with; nil after a swallow / a string
+	A, B   api.Module
+	fn     [6]api.Function // the function objects reused across the whole word
 }
 
 const (
@@ -426,6 +450,15 @@ const (
 	ShXNone
 	ShXShared
 	ShXImported
+	// host-nested shapes whose host level raises the inner failure in another form (see raise styles)
+	ShHost1W1 // depth 1, custom error type whose Unwrap returns the inner error
+	ShHost1W2 // depth 1, fmt.Errorf("ctx: %w", inner)
+	ShHost1W3 // depth 1, errors.Join(inner, other)
+	ShHost1S  // depth 1, a string
+	ShHost1E0 // depth 1, panics with sys.NewExitError(0) it constructed itself, whatever the inner call did
+	ShHost1E9 // same with code 9
+	ShHost5W1 // depth 5, every level wraps with the custom type
+	ShHost2W3 // depth 2, every level joins
 	NShapes
 	nBaseShapes = ShNFnA
 )
@@ -441,6 +474,8 @@ func shapeKinds(shape int) []int {
 		return selfKinds
 	case ShLookup, ShCloseN:
 		return []int{KOk}
+	case ShHost1W1, ShHost1W2, ShHost1W3, ShHost1S, ShHost1E0, ShHost1E9, ShHost5W1, ShHost2W3:
+		return []int{KOk, KUnreachable, KOOBStore, KProcExit0, KProcExit3, KClose7, KPanicError, KRec0}
 	case ShXOwn, ShXNone, ShXShared, ShXImported:
 		ks := make([]int, nSeq)
 		for i := range ks {
@@ -478,6 +513,7 @@ var shapes = [NShapes]shapeInfo{
 	{"startsecA", 'A'}, {"startsecB", 'B'}, {"startfnA", 'A'}, {"startfnB", 'B'},
 	{"nfnA", 'A'}, {"nfnB", 'B'}, {"nfnSelf", 'N'}, {"msecA", 'A'}, {"msecB", 'B'}, {"msecSelf", 'N'}, {"lookup", 'N'}, {"closeN", 'N'},
 	{"xown", 'X'}, {"xnone", 'X'}, {"xshared", 'X'}, {"ximp", 'X'},
+	{"host1W1", 'A'}, {"host1W2", 'A'}, {"host1W3", 'A'}, {"host1S", 'A'}, {"host1E0", 'A'}, {"host1E9", 'A'}, {"host5W1", 'A'}, {"host2W3", 'A'},
 }
 
 type letter struct {
@@ -509,6 +545,29 @@ func parseLetter(s string) (letter, error) {
 	return l, nil
 }
 
+// Raise styles: how a host level that does not swallow the failure of its nested call raises it
+// (mode = catch level | style<<4).
+const (
+	styleSame   = iota // panic(err): the error returned by the nested call itself
+	styleUnwrap        // panic(&wrapErr{err}): own error type whose Unwrap returns it
+	styleErrorf        // panic(fmt.Errorf("ctx: %w", err))
+	styleJoin          // panic(errors.Join(err, errOther))
+	styleString        // panic(stringPanic): not an error value
+	styleExit0         // panic(sys.NewExitError(0)), constructed here, whatever the nested call did (the documented way to exit from a host function)
+	styleExit9         // panic(sys.NewExitError(9))
+)
+
+func isHostShape(s int) bool {
+	return (s >= ShHost1P && s <= ShHost1CB) || (s >= ShHost1W1 && s <= ShHost2W3)
+}
+
+type wrapErr struct{ inner error }
+
+func (e *wrapErr) Error() string { return "c06 wrapErr{" + e.inner.Error() + "}" }
+func (e *wrapErr) Unwrap() error { return e.inner }
+
+var errOther = errors.New("c06 unrelated joined error")
+
 // hostArgs returns (depth, mode, tgt) of a host shape.
 func hostArgs(shape int) (uint32, uint32, uint32) {
 	switch shape {
@@ -528,6 +587,22 @@ func hostArgs(shape int) (uint32, uint32, uint32) {
 		return 1, 0, 1
 	case ShHost1CB:
 		return 1, 1, 1
+	case ShHost1W1:
+		return 1, styleUnwrap << 4, 0
+	case ShHost1W2:
+		return 1, styleErrorf << 4, 0
+	case ShHost1W3:
+		return 1, styleJoin << 4, 0
+	case ShHost1S:
+		return 1, styleString << 4, 0
+	case ShHost1E0:
+		return 1, styleExit0 << 4, 0
+	case ShHost1E9:
+		return 1, styleExit9 << 4, 0
+	case ShHost5W1:
+		return 5, styleUnwrap << 4, 0
+	case ShHost2W3:
+		return 2, styleJoin << 4, 0
 	}
 	panic("not a host shape")
 }
@@ -548,9 +623,16 @@ func (w *world) step(l letter, k uint32) (string, uint32) {
 		res, err = w.fn[fAIndirect].Call(w.cur, kind, uint64(k))
 	case ShIndirectB:
 		res, err = w.fn[fBIndirect].Call(w.cur, kind, uint64(k))
-	case ShHost1P, ShHost2P, ShHost5P, ShHost1C, ShHost5CI, ShHost5CO, ShHost1PB, ShHost1CB:
+	case ShHost1P, ShHost2P, ShHost5P, ShHost1C, ShHost5CI, ShHost5CO, ShHost1PB, ShHost1CB,
+		ShHost1W1, ShHost1W2, ShHost1W3, ShHost1S, ShHost1E0, ShHost1E9, ShHost5W1, ShHost2W3:
 		d, m, t := hostArgs(l.Shape)
+		w.raised = nil
 		res, err = w.fn[fAViaHost].Call(w.cur, uint64(d), uint64(m), uint64(t), kind, uint64(k))
+		if err != nil && w.raised != nil && errors.Is(err, w.raised) {
+			// the caller received the very value the outermost host level panicked with
+			cl := classify(err) + "+id"
+			return cl, 0
+		}
 	case ShStartSecA, ShStartSecB, ShStartFnA, ShStartFnB:
 		t := w.A
 		if shapes[l.Shape].target == 'B' {
